@@ -325,6 +325,17 @@ def replay(path):
     case = json.load(open(os.path.join(path, "case.json")))
     pd = case["pkgdir"]
     files = glob.glob(os.path.join(VERIF, "harness", pd, "zz_verif*.go"))
+    dv = {}
+    for f in files:
+        dv.update(parse_directives(f))
+    mode = dv.get(case["harness"], {}).get("replay", "exact")
+    if mode != "exact" or case.get("tape") is None:
+        # harnesses resting on engine-level models (or on a schedule) have no tape-exact native run:
+        # the replay is the symbolic re-decision of that one harness
+        import subprocess
+        print("replay mode %s: re-deciding %s symbolically" % (mode, case["harness"]))
+        r = subprocess.run([sys.executable, os.path.abspath(__file__), case["property"], "--only", "^.*%s$" % case["harness"], "--no-evidence"], cwd=VERIF)
+        return r.returncode
     ws = D.Workspace(files)
     try:
         out, err = ws.native(pd, [(case["harness"], case["tape"])])
